@@ -13,26 +13,26 @@ func y() { simrt.Yield("atomic") }
 
 type Bool struct{ v atomic.Bool }
 
-func (x *Bool) Load() bool                      { y(); return x.v.Load() }
-func (x *Bool) Store(b bool)                    { y(); x.v.Store(b) }
-func (x *Bool) Swap(b bool) bool                { y(); return x.v.Swap(b) }
-func (x *Bool) CompareAndSwap(o, n bool) bool   { y(); return x.v.CompareAndSwap(o, n) }
+func (x *Bool) Load() bool                    { y(); return x.v.Load() }
+func (x *Bool) Store(b bool)                  { y(); x.v.Store(b) }
+func (x *Bool) Swap(b bool) bool              { y(); return x.v.Swap(b) }
+func (x *Bool) CompareAndSwap(o, n bool) bool { y(); return x.v.CompareAndSwap(o, n) }
 
 type Int32 struct{ v atomic.Int32 }
 
-func (x *Int32) Load() int32                     { y(); return x.v.Load() }
-func (x *Int32) Store(b int32)                   { y(); x.v.Store(b) }
-func (x *Int32) Swap(b int32) int32              { y(); return x.v.Swap(b) }
-func (x *Int32) Add(d int32) int32               { y(); return x.v.Add(d) }
-func (x *Int32) CompareAndSwap(o, n int32) bool  { y(); return x.v.CompareAndSwap(o, n) }
+func (x *Int32) Load() int32                    { y(); return x.v.Load() }
+func (x *Int32) Store(b int32)                  { y(); x.v.Store(b) }
+func (x *Int32) Swap(b int32) int32             { y(); return x.v.Swap(b) }
+func (x *Int32) Add(d int32) int32              { y(); return x.v.Add(d) }
+func (x *Int32) CompareAndSwap(o, n int32) bool { y(); return x.v.CompareAndSwap(o, n) }
 
 type Int64 struct{ v atomic.Int64 }
 
-func (x *Int64) Load() int64                     { y(); return x.v.Load() }
-func (x *Int64) Store(b int64)                   { y(); x.v.Store(b) }
-func (x *Int64) Swap(b int64) int64              { y(); return x.v.Swap(b) }
-func (x *Int64) Add(d int64) int64               { y(); return x.v.Add(d) }
-func (x *Int64) CompareAndSwap(o, n int64) bool  { y(); return x.v.CompareAndSwap(o, n) }
+func (x *Int64) Load() int64                    { y(); return x.v.Load() }
+func (x *Int64) Store(b int64)                  { y(); x.v.Store(b) }
+func (x *Int64) Swap(b int64) int64             { y(); return x.v.Swap(b) }
+func (x *Int64) Add(d int64) int64              { y(); return x.v.Add(d) }
+func (x *Int64) CompareAndSwap(o, n int64) bool { y(); return x.v.CompareAndSwap(o, n) }
 
 type Uint32 struct{ v atomic.Uint32 }
 
@@ -52,37 +52,43 @@ func (x *Uint64) CompareAndSwap(o, n uint64) bool { y(); return x.v.CompareAndSw
 
 type Value struct{ v atomic.Value }
 
-func (x *Value) Load() any                      { y(); return x.v.Load() }
-func (x *Value) Store(b any)                    { y(); x.v.Store(b) }
-func (x *Value) Swap(b any) any                 { y(); return x.v.Swap(b) }
-func (x *Value) CompareAndSwap(o, n any) bool   { y(); return x.v.CompareAndSwap(o, n) }
+func (x *Value) Load() any                    { y(); return x.v.Load() }
+func (x *Value) Store(b any)                  { y(); x.v.Store(b) }
+func (x *Value) Swap(b any) any               { y(); return x.v.Swap(b) }
+func (x *Value) CompareAndSwap(o, n any) bool { y(); return x.v.CompareAndSwap(o, n) }
 
 type Pointer[T any] struct{ v atomic.Pointer[T] }
 
-func (x *Pointer[T]) Load() *T                     { y(); return x.v.Load() }
-func (x *Pointer[T]) Store(b *T)                   { y(); x.v.Store(b) }
-func (x *Pointer[T]) Swap(b *T) *T                 { y(); return x.v.Swap(b) }
-func (x *Pointer[T]) CompareAndSwap(o, n *T) bool  { y(); return x.v.CompareAndSwap(o, n) }
+func (x *Pointer[T]) Load() *T                    { y(); return x.v.Load() }
+func (x *Pointer[T]) Store(b *T)                  { y(); x.v.Store(b) }
+func (x *Pointer[T]) Swap(b *T) *T                { y(); return x.v.Swap(b) }
+func (x *Pointer[T]) CompareAndSwap(o, n *T) bool { y(); return x.v.CompareAndSwap(o, n) }
 
-func AddInt32(p *int32, d int32) int32     { y(); return atomic.AddInt32(p, d) }
-func AddInt64(p *int64, d int64) int64     { y(); return atomic.AddInt64(p, d) }
-func AddUint32(p *uint32, d uint32) uint32 { y(); return atomic.AddUint32(p, d) }
-func AddUint64(p *uint64, d uint64) uint64 { y(); return atomic.AddUint64(p, d) }
-func LoadInt32(p *int32) int32             { y(); return atomic.LoadInt32(p) }
-func LoadInt64(p *int64) int64             { y(); return atomic.LoadInt64(p) }
-func LoadUint32(p *uint32) uint32          { y(); return atomic.LoadUint32(p) }
-func LoadUint64(p *uint64) uint64          { y(); return atomic.LoadUint64(p) }
-func StoreInt32(p *int32, v int32)         { y(); atomic.StoreInt32(p, v) }
-func StoreInt64(p *int64, v int64)         { y(); atomic.StoreInt64(p, v) }
-func StoreUint32(p *uint32, v uint32)      { y(); atomic.StoreUint32(p, v) }
-func StoreUint64(p *uint64, v uint64)      { y(); atomic.StoreUint64(p, v) }
-func SwapInt32(p *int32, v int32) int32    { y(); return atomic.SwapInt32(p, v) }
-func SwapInt64(p *int64, v int64) int64    { y(); return atomic.SwapInt64(p, v) }
-func SwapUint32(p *uint32, v uint32) uint32 { y(); return atomic.SwapUint32(p, v) }
-func SwapUint64(p *uint64, v uint64) uint64 { y(); return atomic.SwapUint64(p, v) }
-func CompareAndSwapInt32(p *int32, o, n int32) bool    { y(); return atomic.CompareAndSwapInt32(p, o, n) }
-func CompareAndSwapInt64(p *int64, o, n int64) bool    { y(); return atomic.CompareAndSwapInt64(p, o, n) }
-func CompareAndSwapUint32(p *uint32, o, n uint32) bool { y(); return atomic.CompareAndSwapUint32(p, o, n) }
-func CompareAndSwapUint64(p *uint64, o, n uint64) bool { y(); return atomic.CompareAndSwapUint64(p, o, n) }
+func AddInt32(p *int32, d int32) int32              { y(); return atomic.AddInt32(p, d) }
+func AddInt64(p *int64, d int64) int64              { y(); return atomic.AddInt64(p, d) }
+func AddUint32(p *uint32, d uint32) uint32          { y(); return atomic.AddUint32(p, d) }
+func AddUint64(p *uint64, d uint64) uint64          { y(); return atomic.AddUint64(p, d) }
+func LoadInt32(p *int32) int32                      { y(); return atomic.LoadInt32(p) }
+func LoadInt64(p *int64) int64                      { y(); return atomic.LoadInt64(p) }
+func LoadUint32(p *uint32) uint32                   { y(); return atomic.LoadUint32(p) }
+func LoadUint64(p *uint64) uint64                   { y(); return atomic.LoadUint64(p) }
+func StoreInt32(p *int32, v int32)                  { y(); atomic.StoreInt32(p, v) }
+func StoreInt64(p *int64, v int64)                  { y(); atomic.StoreInt64(p, v) }
+func StoreUint32(p *uint32, v uint32)               { y(); atomic.StoreUint32(p, v) }
+func StoreUint64(p *uint64, v uint64)               { y(); atomic.StoreUint64(p, v) }
+func SwapInt32(p *int32, v int32) int32             { y(); return atomic.SwapInt32(p, v) }
+func SwapInt64(p *int64, v int64) int64             { y(); return atomic.SwapInt64(p, v) }
+func SwapUint32(p *uint32, v uint32) uint32         { y(); return atomic.SwapUint32(p, v) }
+func SwapUint64(p *uint64, v uint64) uint64         { y(); return atomic.SwapUint64(p, v) }
+func CompareAndSwapInt32(p *int32, o, n int32) bool { y(); return atomic.CompareAndSwapInt32(p, o, n) }
+func CompareAndSwapInt64(p *int64, o, n int64) bool { y(); return atomic.CompareAndSwapInt64(p, o, n) }
+func CompareAndSwapUint32(p *uint32, o, n uint32) bool {
+	y()
+	return atomic.CompareAndSwapUint32(p, o, n)
+}
+func CompareAndSwapUint64(p *uint64, o, n uint64) bool {
+	y()
+	return atomic.CompareAndSwapUint64(p, o, n)
+}
 func LoadPointer(p *unsafe.Pointer) unsafe.Pointer     { y(); return atomic.LoadPointer(p) }
 func StorePointer(p *unsafe.Pointer, v unsafe.Pointer) { y(); atomic.StorePointer(p, v) }
